@@ -47,7 +47,7 @@ SPEC = dict(
              dict(bin="hubunit", args=["-prop", "C18sys"], n_quick=18, n_thorough=180, timeout=1200)],
     codes={10: "sync_notification_overtakes_delayed", 11: "delayed_notifications_inverted",
            12: "last_notification_not_current", 14: "cancel_ignored_by_connection_answer_differs", 13: "older_state_after_newer_unexplained",
-           15: "terminal_state_mapped_wrongly"},
+           15: "terminal_state_mapped_wrongly", 16: "latest_state_never_notified"},
     rule="one case = the complete linearised history of one SKI on its own real hub.Hub: 2 deterministic replays of the "
          "cancel-after-pending-request witness, 2 full client handshake bursts and the cancel-after-completion witness, then 55% realistic runs (client/server; "
          "success, remote denial, error with the double error report, pending then approved / cancelled / left waiting, "
